@@ -18,7 +18,8 @@ TRUSTED = [
 ]
 ASSUMPTIONS = [
     "k = 0 and P = O are public (the routines return early); the sign of an exponent is public (negative exponents add an inversion)",
-    "ep2_mul_lwreg, ed_mul_monty/ed_mul_lwreg (255-bit configuration), g1/g2/gt *_sec wrappers: not yet covered (PARTIAL)",
+    "ep2_mul_lwreg, ed_mul_monty / ed_mul_lwreg (255-bit configuration) and the g1/g2/gt *_sec wrappers have no log model: they are checked in the "
+    "relational form (two scalars of the same public length must produce identical logs)",
 ]
 RULE = ("primitives: both bit values, lengths 0..40, equal / differing-in-one-position / random arrays, boundary digits; algorithms: for every "
         "curve, scalars of the full public length with random, low and high Hamming weight, long zero runs, all-ones, 0, n±1, negative; "
@@ -30,15 +31,43 @@ WRAPS = ["ep_add_basic", "ep_add_projc", "ep_add_jacob", "ep_dbl_basic", "ep_dbl
          "bn_mod_pmers", "bn_mod_monty_conv", "bn_mod_monty_back", "fp_mul_basic", "fp_mul_comba", "fp_mul_integ", "fp_mul_karat",
          "fp_sqr_basic", "fp_sqr_comba", "fp_sqr_integ", "fp_sqr_karat", "fb_mul_basic", "fb_mul_integ", "fb_mul_lodah", "fb_mul_karat",
          "fb_sqr_basic", "fb_sqr_integ", "fb_sqr_quick", "ep2_add_basic", "ep2_add_projc", "ep2_add_jacob", "ep2_dbl_basic",
-         "ep2_dbl_projc", "ep2_dbl_jacob", "ep2_neg", "ep2_sub", "ep2_norm", "ep2_blind", "ep2_tab", "ep2_frb"]
+         "ep2_dbl_projc", "ep2_dbl_jacob", "ep2_neg", "ep2_sub", "ep2_norm", "ep2_blind", "ep2_tab", "ep2_frb",
+         "fp12_mul_basic", "fp12_mul_lazyr", "fp12_sqr_basic", "fp12_sqr_lazyr", "fp12_sqr_cyc_basic", "fp12_sqr_cyc_lazyr", "fp12_sqr_pck_basic",
+         "fp12_sqr_pck_lazyr", "fp12_frb", "fp12_inv_cyc", "fp12_back_cyc"]
+WRAPS_ED = ["ed_add_basic", "ed_add_projc", "ed_add_extnd", "ed_sub_basic", "ed_sub_projc", "ed_sub_extnd", "ed_dbl_basic", "ed_dbl_projc",
+            "ed_dbl_extnd", "ed_neg_basic", "ed_neg_projc", "ed_norm", "ed_blind", "ed_tab"]
 
 EB_IDS = [8, 9]     # NIST_B283, NIST_K283 (include/relic_eb.h)
 
 
 def _exe(ctx, cfg="base"):
-    return ctx.oracle(cfg, defs=("ORACLE_FP", "ORACLE_EP", "ORACLE_EXTRA1=ops_ct"),
-                      sources=("oracle.c", "ops_bn.c", "ops_fp.c", "ops_ep.c", "ops_ct.c"), tag="_ct",
-                      extra=tuple("-Wl,--wrap=" + s for s in WRAPS))
+    ed = cfg.startswith("p255")
+    return ctx.oracle(cfg, defs=("ORACLE_FP", "ORACLE_EP", "ORACLE_EXTRA1=ops_ct") + (("ORACLE_CT_ED",) if ed else ("ORACLE_EXTRA2=ops_ep2",)),
+                      sources=("oracle.c", "ops_bn.c", "ops_fp.c", "ops_ep.c", "ops_ct.c") + (() if ed else ("ops_ep2.c",)), tag="_ct",
+                      extra=tuple("-Wl,--wrap=" + s for s in WRAPS + (WRAPS_ED if ed else [])))
+
+
+def pair_same_length(rng, bits):
+    """two scalars of exactly `bits` bits with different shapes"""
+    top = 1 << (bits - 1)
+    shapes = [top | rng.bits(bits - 1), top, top | ((1 << (bits - 1)) - 1), top | 1, top | rng.bits(min(bits - 1, 8)),
+              top | (rng.bits(bits - 1) & ~((1 << min(40, bits - 1)) - 1)), top | int("01" * (bits // 2), 2) & ((1 << (bits - 1)) - 1) | top]
+    a = rng.choice(shapes)
+    b = rng.choice([x for x in shapes if x != a] or [top | 1])
+    return a, b
+
+
+def rel_lines(rng, fns, nbits, count):
+    out = []
+    for _ in range(count):
+        f = rng.choice(fns)
+        bits = rng.choice([nbits, nbits, nbits - 1, 200, 129, 128, 65, 64, 63, 33, 8, 2])
+        bits = max(2, min(bits, nbits))
+        a, b = pair_same_length(rng, bits)
+        if rng.chance(1, 6):
+            a, b = -a, -b
+        out.append("ct_rel %s %x %s %s" % (f, 1 + rng.below(1000), hx(a), hx(b)))
+    return out
 
 
 def digs(rng, w, n, style):
@@ -167,7 +196,15 @@ def streams(ctx, scale=1):
         lines.append("ep_param %d" % cid)
         lines += alg_lines(ctx.rng, cv, per, kv.get("pairf", "0") != "0")
     lines += bin_lines(ctx.rng, per)
+    # relational form for the routines without a log model: pairing-group wrappers on the pairing-friendly curves
+    for cid in (23, 24):
+        lines.append("ep2_param %d" % cid)      # installs the twist (and with it the pairing generators)
+        lines.append("ep_param %d" % cid)
+        lines += rel_lines(ctx.rng, ["gt_exp_sec", "ep2_lwreg", "g2_mul_sec", "g1_mul_sec"], 256, per // 2)
     res.append({"name": "ct-base", "cfg": "base", "exe": exe, "lines": lines})
+    # Edwards ladder and regular recoding (255-bit configuration)
+    exe2 = _exe(ctx, "p255")
+    res.append({"name": "ct-p255", "cfg": "p255", "exe": exe2, "lines": ["cfg"] + rel_lines(ctx.rng, ["ed_monty", "ed_lwreg"], 253, per)})
     return res
 
 
